@@ -3,8 +3,10 @@
 cd /verif
 declare -A T=( [01]="C08 C09 C10 C12 C14" [02]="C11 C12" [03]="C09 C17 C08" [04]="C06 C08 C14 C10" [05]="C08 C10 C07 C12"
                [06]="C12 C10 C01" [07]="C01 C02 C03 C16 C15" [08]="C01 C04 C16 C18" [09]="C13 C18 C01" [10]="C19 C05 C01"
-               [11]="C06 C08 C04" [12]="C20" )
-for n in ${BENIGN_LIST:-01 02 03 04 05 06 07 08 09 10 11 12}; do
+               [11]="C06 C08 C04" [12]="C20"
+               [13]="C19 C06 C01" [14]="C19 C05 C13" [15]="C05 C19" [16]="C07 C13 C08" [17]="C06 C08 C18" [18]="C07 C04 C11 C08"
+               [19]="C13 C18 C03 C01" [20]="C08 C10 C14 C06 C07" [21]="C10 C12 C08" [22]="C01 C03 C16 C15 C17" [23]="C20" [24]="C20" )
+for n in ${BENIGN_LIST:-01 02 03 04 05 06 07 08 09 10 11 12 13 14 15 16 17 18 19 20 21 22 23 24}; do
   git -C /repo apply /verif/benign/$n/patch.diff || { echo "$n: PATCH FAILED"; continue; }
   props="${T[$n]}"; [ "$1" = all ] && props="C01 C02 C03 C04 C05 C06 C07 C08 C09 C10 C11 C12 C13 C14 C15 C16 C17 C18 C19 C20"
   for P in $props; do
